@@ -44,6 +44,90 @@ struct Typed {
     version: String,
 }
 
+/// A metadata type as buildpacks write them: renamed fields, options, nested structs, enums, maps, datetimes, wide integers.
+#[derive(Serialize, Deserialize, Clone, Debug, PartialEq)]
+#[serde(rename_all = "kebab-case", deny_unknown_fields)]
+struct Rich {
+    schema_version: u32,
+    name: String,
+    opt_str: Option<String>,
+    #[serde(default)]
+    tags: Vec<String>,
+    nums: Vec<i64>,
+    big: u64,
+    ratio: f64,
+    flag: bool,
+    when: Option<toml::value::Datetime>,
+    kind: RichKind,
+    inner: RichInner,
+    map: std::collections::BTreeMap<String, String>,
+    pairs: Vec<RichInner>,
+}
+
+#[derive(Serialize, Deserialize, Clone, Debug, PartialEq)]
+#[serde(rename_all = "kebab-case")]
+enum RichKind {
+    Plain,
+    Versioned { major: u32 },
+    Named(String),
+}
+
+#[derive(Serialize, Deserialize, Clone, Debug, PartialEq)]
+#[serde(deny_unknown_fields)]
+struct RichInner {
+    key: String,
+    #[serde(skip_serializing_if = "Option::is_none", default)]
+    note: Option<String>,
+    depth: Vec<Vec<i64>>,
+}
+
+fn rich_inner_from(v: &Value) -> RichInner {
+    RichInner {
+        key: jstr(v, "key").to_string(),
+        note: v.get("note").and_then(Value::as_str).map(String::from),
+        depth: jarr(v, "depth").iter().map(|r| r.as_array().unwrap().iter().map(|x| x.as_i64().unwrap()).collect()).collect(),
+    }
+}
+
+fn rich_from(v: &Value) -> Rich {
+    let ratio = match v["ratio"].as_str() {
+        Some("nan") => f64::NAN,
+        Some("inf") => f64::INFINITY,
+        Some("-inf") => f64::NEG_INFINITY,
+        Some(x) => x.parse().expect("ratio"),
+        None => v["ratio"].as_f64().expect("ratio"),
+    };
+    let kind = match jstr(v, "kind") {
+        "plain" => RichKind::Plain,
+        "versioned" => RichKind::Versioned { major: v["kind_major"].as_u64().unwrap() as u32 },
+        _ => RichKind::Named(jstr(v, "kind_name").to_string()),
+    };
+    Rich {
+        schema_version: v["schema_version"].as_u64().unwrap() as u32,
+        name: jstr(v, "name").to_string(),
+        opt_str: v.get("opt_str").and_then(Value::as_str).map(String::from),
+        tags: jarr(v, "tags").iter().map(|x| x.as_str().unwrap().to_string()).collect(),
+        nums: jarr(v, "nums").iter().map(|x| x.as_i64().unwrap()).collect(),
+        big: v["big"].as_u64().expect("big"),
+        ratio,
+        flag: jbool(v, "flag"),
+        when: v.get("when").and_then(Value::as_str).map(|x| x.parse().expect("datetime")),
+        kind,
+        inner: rich_inner_from(&v["inner"]),
+        map: jarr(v, "map").iter().map(|kv| (kv[0].as_str().unwrap().to_string(), kv[1].as_str().unwrap().to_string())).collect(),
+        pairs: jarr(v, "pairs").iter().map(rich_inner_from).collect(),
+    }
+}
+
+fn rich_same(a: &Rich, b: &Rich) -> bool {
+    let mut a2 = a.clone();
+    let mut b2 = b.clone();
+    let ratio_same = a.ratio.to_bits() == b.ratio.to_bits() || (a.ratio.is_nan() && b.ratio.is_nan()) || a.ratio == b.ratio;
+    a2.ratio = 0.0;
+    b2.ratio = 0.0;
+    ratio_same && a2 == b2
+}
+
 #[derive(Serialize, Deserialize, Clone, Debug)]
 struct V1 {
     v: String,
@@ -403,6 +487,50 @@ pub fn handle(st: &mut State, req: &Value) -> Value {
                 Err(e) => {
                     let mut v = err_variant(&e);
                     v["callbacks"] = json!(log.into_inner());
+                    v
+                }
+            }
+        }
+        // a typed metadata value written through a LayerRef and handed back to the restored-layer callback of the next request
+        "rich" => {
+            let ctx = st.ctx.as_ref().expect("init first");
+            let name: LayerName = jstr(req, "name").parse().expect("layer name");
+            let value = rich_from(&req["value"]);
+            let seen: RefCell<Option<Rich>> = RefCell::new(None);
+            let request = || {
+                ctx.cached_layer(
+                    &name,
+                    CachedLayerDefinition {
+                        build: true,
+                        launch: jbool(req, "launch"),
+                        invalid_metadata_action: &|_: &GenericMetadata| -> Result<(InvalidMetadataAction<Rich>, String), TErr> { Ok((InvalidMetadataAction::DeleteLayer, "invalid".to_string())) },
+                        restored_layer_action: &|m: &Rich, _: &Path| -> Result<(RestoredLayerAction, String), TErr> {
+                            *seen.borrow_mut() = Some(m.clone());
+                            Ok((RestoredLayerAction::KeepLayer, "kept".to_string()))
+                        },
+                    },
+                )
+            };
+            let first = match request() {
+                Ok(r) => r,
+                Err(e) => return err_variant(&e),
+            };
+            if let Err(e) = first.write_metadata(value.clone()) {
+                let mut v = err_variant(&e);
+                v["write_err"] = json!(true);
+                return v;
+            }
+            let text = std::fs::read_to_string(ctx.layers_dir.join(format!("{}.toml", name.as_str()))).unwrap_or_default();
+            *seen.borrow_mut() = None;
+            match request() {
+                Ok(r) => {
+                    let got = seen.borrow().clone();
+                    json!({"toml_text": text, "state": state_json(&r.state), "callback_ran": got.is_some(),
+                           "restored_equal": got.as_ref().is_some_and(|g| rich_same(g, &value)), "restored_debug": format!("{got:?}"), "written_debug": format!("{value:?}")})
+                }
+                Err(e) => {
+                    let mut v = err_variant(&e);
+                    v["toml_text"] = json!(text);
                     v
                 }
             }
